@@ -1,9 +1,9 @@
 import ImathVerif.Lemmas.C08Lemmas
 /-!
-# C08 lemmas — `Vec4::length()` (257-path tree) is the Euclidean norm
+# C08 lemmas — `Vec4::length()` (513-path tree) is the Euclidean norm
 
 Separate module so that this tree elaborates in parallel with the Vec2/Vec3 ones (≈ 50 s).
-Same scheme as `Lemmas/C08Lemmas.lean`: peel the `if`s one at a time, close each of the 257 leaves with
+Same scheme as `Lemmas/C08Lemmas.lean`: peel the `if`s one at a time, close each of the 513 leaves with
 `scaled_div` (scaled branch, `0 < m` from the path conditions), `zero4` (all components forced to 0) or `ring`
 (direct branch).  Exact arithmetic only; rounding is measured by the residue harness (level: partial).
 -/
@@ -13,9 +13,9 @@ open ImathVerif
 section
 variable {α : Type} [Field α] [LinearOrder α] [IsStrictOrderedRing α] {sqrt : α → α}
 
-set_option maxHeartbeats 4000000 in
-/-- `Vec4<T>::length()` (real body, `lengthTiny` inlined, 257 paths) is `sqrt (x² + y² + z² + w²)` for EVERY
-vector and every threshold `tmin`. -/
+set_option maxHeartbeats 8000000 in
+/-- `Vec4<T>::length()` (real body, `lengthTiny` inlined, 513 paths) is `sqrt (x² + y² + z² + w²)` for EVERY
+vector and all limits `tmin`, `tmax`. -/
 theorem V4_length_eq (tmin tmax : α) (hsqrt : ∀ x, 0 ≤ x → sqrt x * sqrt x = x ∧ 0 ≤ sqrt x) (a : V4 α) :
     Gen.V4.length tmin tmax sqrt a = sqrt (a.x * a.x + a.y * a.y + a.z * a.z + a.w * a.w) := by
   obtain ⟨x, y, z, w⟩ := a
